@@ -20,54 +20,63 @@ Proof. exact (alu_step_math E cx op s). Qed.
 
 (* 2. termination made explicit: every non-halting iteration costs >= 1 gas and a callee never returns more gas than it
       was given, so fuel gas+1 suffices for every program, input, world and call nesting; gas left is within [0, gas] *)
-Theorem run_terminates_within_gas fuel E static to input gas w :
+Theorem run_terminates_within_gas fuel E static to v input gas w :
   0 <= gas < Z.of_nat fuel ->
-  let r := call_top fuel E static to input gas w in
+  let r := call_top fuel E static to v input gas w in
   r_out r <> O_fuel /\ 0 <= r_gas r <= gas.
-Proof. exact (call_top_terminates fuel E static to input gas w). Qed.
+Proof. exact (call_top_terminates fuel E static to v input gas w). Qed.
 
 Theorem frame_terminates_within_gas fuel E cx s : inv s -> s_gas s < Z.of_nat fuel ->
   r_out (run fuel E cx s) <> O_fuel /\ 0 <= r_gas (run fuel E cx s) <= s_gas s.
 Proof. exact (run_gas fuel E cx s). Qed.
 
 (* ... and any larger fuel gives the same answer (the oracle runs with one fixed large fuel) *)
-Theorem fuel_irrelevant f f' E static to input gas w :
-  r_out (call_top f E static to input gas w) <> O_fuel -> (f <= f')%nat ->
-  call_top f' E static to input gas w = call_top f E static to input gas w.
-Proof. exact (call_top_fuel_irrelevant f f' E static to input gas w). Qed.
+Theorem fuel_irrelevant f f' E static to v input gas w :
+  r_out (call_top f E static to v input gas w) <> O_fuel -> (f <= f')%nat ->
+  call_top f' E static to v input gas w = call_top f E static to v input gas w.
+Proof. exact (call_top_fuel_irrelevant f f' E static to v input gas w). Qed.
 
-(* 3. a frame that does not end successfully (error, REVERT, or outside the model) leaves storage, logs and refund exactly
-      as at its entry, whatever it and its nested calls did: at the entry call and at every nested call *)
-Theorem failed_frame_no_effect fuel E static to input gas w :
-  let r := call_top fuel E static to input gas w in
+(* 3. a frame that does not end successfully (error, REVERT, or outside the model) leaves the world — balances, code, created
+      accounts (master flag), storage, logs, transfer records, refund, self-destruct set — exactly as at its entry, whatever it
+      and its nested calls / creations did: at the entry call, at every nested call and at every CREATE / CREATE2 *)
+Theorem failed_frame_no_effect fuel E static to v input gas w :
+  let r := call_top fuel E static to v input gas w in
   r_out r <> O_ok -> r_world r = w.
-Proof. exact (call_top_failed fuel E static to input gas w). Qed.
+Proof. exact (call_top_failed fuel E static to v input gas w). Qed.
 
-Theorem failed_nested_frame_no_effect fuel E self cs vs static d k to args gas w :
-  let r := do_call (run fuel E) E self cs vs static d k to args gas w in
+Theorem failed_nested_frame_no_effect fuel E self cs vs static d k to v args gas w cc :
+  let r := do_call (run fuel E) E self cs vs static d k to v args gas w cc in
   r_out r <> O_ok -> r_world r = w.
-Proof. exact (frame_failed fuel E self cs vs static d k to args gas w). Qed.
+Proof. exact (frame_failed fuel E self cs vs static d k to v args gas w cc). Qed.
 
-(* 4. under the static flag no program changes storage, logs or refund, at any depth, whatever the outcome *)
+Theorem failed_creation_no_effect fuel E self static d addr init v gas w cc :
+  let r := do_create (run fuel E) E self static d addr init v gas w cc in
+  r_out r <> O_ok -> r_world r = w.
+Proof. exact (create_failed fuel E self static d addr init v gas w cc). Qed.
+
+(* 4. under the static flag no program changes the world (balances, code, accounts, storage, logs, transfers, refund,
+      self-destruct set), at any depth, whatever the outcome *)
 Theorem static_no_write fuel E to input gas w :
-  r_world (call_top fuel E true to input gas w) = w.
+  r_world (call_top fuel E true to 0 input gas w) = w.
 Proof. exact (call_top_static fuel E to input gas w). Qed.
 
 Theorem static_frame_no_write fuel E cx s : c_static cx = true -> r_world (run fuel E cx s) = s_world s.
 Proof. exact (run_static fuel E cx s). Qed.
 
-Theorem staticcall_no_write fuel E self cs vs static d k to args gas w :
-  static = true \/ k = K_STATIC ->
-  r_world (do_call (run fuel E) E self cs vs static d k to args gas w) = w.
-Proof. exact (frame_static fuel E self cs vs static d k to args gas w). Qed.
+(* a STATICCALL from any frame; a CALL made under the static flag carries value 0 (the interpreter rejects it otherwise) *)
+Theorem staticcall_no_write fuel E self cs vs static d k to v args gas w cc :
+  static = true \/ k = K_STATIC -> (k = K_CALL -> v = 0) ->
+  r_world (do_call (run fuel E) E self cs vs static d k to v args gas w cc) = w.
+Proof. exact (frame_static fuel E self cs vs static d k to v args gas w cc). Qed.
 
 (* ---------------------------------------------------------------- non-vacuity *)
 (* A (address 10): SSTORE(0,1); CALL B with all gas; INVALID.   B (address 11): SSTORE(1,7); STOP. *)
 Definition exA : list Z := [96;1;95;85; 95;95;95;95;95;96;11;90;241; 254].
 Definition exA_ok : list Z := [96;1;95;85; 95;95;95;95;95;96;11;90;241; 0].
 Definition exB : list Z := [96;7;96;1;85;0].
-Definition exE (a : list Z) : env := mkEnv [(10, a); (11, exB)] 99 1 0 0 1 0 1000000 0 0.
-Definition exW : world := mkWorld [(10, 5, 3)] [] 0.
+Definition exE : env := mkEnv 99 1 0 0 1 0 1000000 0 0 [500; 501] [([], 77)] 42.
+Definition exW (a : list Z) : world :=
+  mkWorld [(10, mkAcc 5 a false); (11, mkAcc 0 exB false); (99, mkAcc 1000 [] false)] [(10, 5, 3)] [] 0 [] [].
 
 Example words_exist : in_word 0 /\ in_word (W - 1) /\ i_alu A_SAR 4 (W - 16) 0 = W - 1 /\ i_alu A_SDIV HALF (W - 1) 0 = HALF.
 Proof. vm_compute. repeat split; try reflexivity; try (intros; discriminate). Qed.
@@ -76,25 +85,35 @@ Proof. vm_compute. repeat split; try reflexivity; try (intros; discriminate). Qe
 Definition exA2 : list Z := [96;1;95;82; 96;32;95;95;95;95;96;11;90;241; 95;81;0].
 Definition exB2 : list Z := [96;7;95;82;96;32;95;243].
 Example terminates_nonvacuous :
-  let r := call_top 1600 (mkEnv [(10, exA2); (11, exB2)] 99 1 0 0 1 0 1000000 0 0) false 10 [] 1500 exW in
+  let w := mkWorld [(10, mkAcc 0 exA2 false); (11, mkAcc 0 exB2 false)] [] [] 0 [] [] in
+  let r := call_top 1600 exE false 10 0 [] 1500 w in
   0 <= 1500 < Z.of_nat 1600 /\ r_out r = O_ok /\ 0 < r_gas r < 1500.
 Proof. vm_compute. repeat split; try reflexivity; try (intros; discriminate). Qed.
 
-(* nested calls and writes really happen in the model: the successful variant of the next example ends with three bindings *)
+(* nested calls, value transfer and writes really happen: the successful variant ends with three storage bindings and the
+   3 wei sent along with the entry call have moved from the origin (99) to A (10) *)
 Example writes_happen :
-  let r := call_top 200 (exE exA_ok) false 10 [] 100000 exW in
-  r_out r = O_ok /\ length (w_store (r_world r)) = 3%nat.
+  let r := call_top 200 exE false 10 3 [] 100000 (exW exA_ok) in
+  r_out r = O_ok /\ length (w_store (r_world r)) = 3%nat /\ balance (r_world r) 10 = 8 /\ balance (r_world r) 99 = 997.
+Proof. vm_compute. repeat split; reflexivity. Qed.
+
+(* a frame that fails AFTER receiving value, its own write and a successful nested writer: world is the entry world *)
+Example failed_nonvacuous :
+  let r := call_top 200 exE false 10 3 [] 100000 (exW exA) in
+  r_out r = O_err E_invalid /\ r_world r = exW exA.
 Proof. vm_compute. split; reflexivity. Qed.
 
-(* a frame that fails AFTER its own write and a successful nested writer: hypothesis of 3 holds, world is the entry world *)
-Example failed_nonvacuous :
-  let r := call_top 200 (exE exA) false 10 [] 100000 exW in
-  r_out r = O_err E_invalid /\ r_world r = exW.
-Proof. vm_compute. split; reflexivity. Qed.
+(* CREATE whose init code writes, then fails (INVALID): creation reports failure, master flag / log / write are gone.
+   C (address 10): MSTORE8(0, 0xfe) ... init code = [PUSH1 1, PUSH0, SSTORE, INVALID] stored via MSTORE; CREATE(0, 27, 5) *)
+Example failed_creation_nonvacuous :
+  let init := [96;1;95;85;254] in
+  let r := do_create (run 100 exE) exE 10 false 1 500 init 0 60000 (exW exA) 0 in
+  r_out r = O_err E_invalid /\ r_world r = exW exA /\ r_cc r = 1.
+Proof. vm_compute. repeat split; reflexivity. Qed.
 
 (* under static the same program stops at its first SSTORE with the write-protection error *)
 Example static_nonvacuous :
-  r_out (call_top 200 (exE exA_ok) true 10 [] 100000 exW) = O_err E_write.
+  r_out (call_top 200 exE true 10 0 [] 100000 (exW exA_ok)) = O_err E_write.
 Proof. vm_compute. reflexivity. Qed.
 
 Print Assumptions alu_matches_math.
@@ -104,6 +123,7 @@ Print Assumptions frame_terminates_within_gas.
 Print Assumptions fuel_irrelevant.
 Print Assumptions failed_frame_no_effect.
 Print Assumptions failed_nested_frame_no_effect.
+Print Assumptions failed_creation_no_effect.
 Print Assumptions static_no_write.
 Print Assumptions static_frame_no_write.
 Print Assumptions staticcall_no_write.
